@@ -1516,12 +1516,66 @@ def _run(ctx, sim):
             res = drive(sim, cls, c)
             fl = [f for f in oracle(c, res) if f[0] == fp] or oracle(c, res) or fails
             outv.append(violation(c, res, fl))
+        if not outv:
+            for off in (-700000, 1234567):
+                vd = time_source_verdict(time_source_probe(off))
+                if vd:
+                    outv.append({"kind": "time-source", "what": vd, "fingerprint": "grid-not-anchored-at-FPGA-t0-under-own-time-source",
+                                 "offset": off, "n": 20000})
+                    break
         return outv
 
     return ctx.finish(search=search)
 
 
+
+TIME_SOURCE_PROBE = r"""
+import sys, os, json
+sys.path.insert(0, sys.argv[1])
+import hal, hal.simulation as hs, wpilib
+hs.pauseTiming(); hs.restartTiming(); hs.stepTimingAsync(1500000)
+off = int(sys.argv[2]); n = int(sys.argv[3])
+wpilib.RobotController.setTimeSource(lambda: int(hal.getFPGATime()[0]) + off)
+from robotpy_ext.misc.precise_delay import NotifierDelay
+t0 = int(hal.getFPGATime()[0])
+d = NotifierDelay(n / 1e6)
+print(json.dumps({"t0": t0, "alarm": int(hs.getNextNotifierTimeout()), "robot_time": int(wpilib.RobotController.getTime())}))
+sys.stdout.flush()
+os._exit(0)
+"""
+
+
+def time_source_probe(off, n=20000):
+    """a program that has installed its own time source (wpilib.RobotController.setTimeSource: a match / replay clock with
+    another origin) creates a NotifierDelay at FPGA time t0: the first alarm must be t0 + P of the FPGA clock the HAL compares
+    alarms against.  Own process: a python time source must not outlive the interpreter."""
+    import subprocess
+    from .common import REPO
+    try:
+        p = subprocess.run([sys.executable, "-c", TIME_SOURCE_PROBE, REPO, str(off), str(n)], stdout=subprocess.PIPE,
+                           stderr=subprocess.DEVNULL, text=True, timeout=60)
+        return json.loads(p.stdout.strip().splitlines()[-1])
+    except Exception:
+        return None
+
+
+def time_source_verdict(res, n=20000):
+    if res and res["alarm"] != res["t0"] + n:
+        return ("NotifierDelay(%r) created at FPGA time %d us by a program whose own time source reads %d us: the first alarm is "
+                "programmed at %d us, t0 + P = %d us" % (n / 1e6, res["t0"], res["robot_time"], res["alarm"], res["t0"] + n))
+    return None
+
+
 def replay(ctx, obj):
+    if obj.get("kind") == "time-source":
+        res = time_source_probe(obj["offset"], obj["n"])
+        vd = time_source_verdict(res, obj["n"])
+        print("own time source, offset %d us: %r" % (obj["offset"], res))
+        if vd:
+            print("violates C16:", vd)
+            print("VIOLATION property=C16 replay=(replayed)")
+            return 1
+        return 0
     if obj.get("kind") != "input":
         print("replay names broken obligations only: %s" % [b if isinstance(b, str) else b.get("name") for b in obj.get("broken_obligations", [])])
         return run(ctx)
